@@ -85,6 +85,22 @@ def _cases(tier, rng):
         if rng.random() < 0.3:
             c['ctx'] = 'split'
         yield c
+    # user functions with effects that a later stage of the same pipeline reads while the same item is processed: an action that
+    # records the item followed by a map that looks at the record (the action of an item has run when the next stage sees the item,
+    # on both paths), and a work list that a later action extends while flat_map walks it (both paths walk the list itself)
+    for _ in range({'quick': 30, 'thorough': 300, 'search': 20}[tier]):
+        ng = rng.choice([1, 2, 3])
+        if rng.random() < 0.5:
+            term = rng.choice([[['do_action', 'log'], ['map', ['peek_log']]], [['do_action', 'log'], ['filter', ['is_even']], ['map', ['peek_log']]],
+                               [['map', ['add', 1]], ['do_action', 'log'], ['map', ['peek_log']]]])
+            items = [{'t': [rng.randrange(ng), rng.randrange(9)]} for _ in range(rng.choice([2, 4, 7]))]
+        else:
+            term = [['map', ['reg_list']], ['flat_map'], ['do_action', 'grow', rng.choice([20, 40])]]
+            items = [{'t': [rng.randrange(ng), {'l': [rng.randrange(1, 9) for _k in range(rng.choice([1, 2]))]}]} for _ in range(rng.choice([2, 3, 5]))]
+        c = {'kind': 'dual', 'term': term, 'items': items, 'no_model': True}
+        if rng.random() < 0.3:
+            c['ctx'] = 'split'
+        yield c
     # accumulated values whose == is elementwise and has no truth value (numpy arrays, pandas objects): scans, running or reduced,
     # with or without terminator, must treat them as opaque values on both paths (real code against real code, outside the model)
     for _ in range({'quick': 40, 'thorough': 300, 'search': 20}[tier]):
